@@ -415,6 +415,11 @@ class Body:
     def term(self, b):
         return self.blocks[b]["term"]
 
+    def inlined_from(self, b):
+        """Name of the local function block `b` was spliced in from by lib.inline (None for the body's own blocks). Rules that
+        scan every reachable body terminator by terminator skip such copies: the original is scanned in its own body."""
+        return self.blocks[b].get("inl")
+
     @staticmethod
     def _succs_of(t):
         k = t["k"]
@@ -773,7 +778,13 @@ class Program:
             out.extend(self.closure_tree(c))
         return out
 
-    def promoted(self, body, idx):
+    def promoted(self, body, idx, const=None):
+        """Promoted constant `idx` of `body`; pass the constant operand when the statement may have been inlined from
+        another function (its `uneval` names the function the promoted belongs to)."""
+        if const is not None and const.get("uneval"):
+            r = self.bodies.get((body.crate, norm(const["uneval"]), idx))
+            if r is not None:
+                return r
         return self.bodies.get((body.crate, body.path, idx))
 
     def const_body(self, crate, const_operand):
@@ -880,6 +891,11 @@ class Program:
             if (b.crate, b.path) in seen:
                 continue
             seen[(b.crate, b.path)] = b
+            for nm_ in getattr(b, "inlined", ()):
+                # helpers spliced into this body by lib.inline are reached by it all the same
+                tgt_ = self.bodies.get((b.crate, nm_, -1))
+                if tgt_ is not None:
+                    wl.append(tgt_)
             if include_closures:
                 for ch in self.children(b):
                     if ch.kind == "Closure":
